@@ -172,7 +172,8 @@ pub fn law(ctx: &Ctx, fam: Fam, ft: Ft, n: u64) {
             }
         }
     }
-    ctx.eval(1);
+    // a case of the sampled part is one bin of the layer-aligned partition (evaluations = bins tested)
+    ctx.eval(eb.len() as u64 + 1);
     ctx.class(&format!("draws:{:?}:{:?}", fam, ft), n);
     // non-trivial bins: expected count >= 1000
     let mut nt = 0u64;
